@@ -112,93 +112,99 @@ Proof.
   - apply N.leb_le. vm_compute. reflexivity.
 Qed.
 
-(* ---------- the closed value theorems (Rpc/EndToEndFull.v) applied to a concrete call on the regenerated schemas:
-     int mixed2(int a, string b, Item d, out string o1, out vector<int> o2, out Item o3, out map<string,string> o4)
-   (out parameters after the in parameters), fresh out variables ---------- *)
-From TarsV Require Import Codec.RoundTrip Codec.RoundTripProofs Rpc.EndToEndFull.
+(* ---------- the closed value theorems (Rpc/EndToEndFull.v) applied to the same call of mixed (in and out parameters
+   interleaved: the dispatcher passes over the encoded out arguments), fresh out variables ---------- *)
+From TarsV Require Import Codec.RoundTrip Codec.RoundTripProofs Rpc.ValueWire Rpc.EndToEndFull.
 
 (* the regenerated schemas satisfy the conditions of the struct-level codec theorems (tags ascending, defaults on
    scalars only, by-value struct nesting at most 2) *)
 Example fx_env0_wf : wf_schema 2 env0.
 Proof. apply wf_schema_b_sound. vm_compute. reflexivity. Qed.
 
-Definition fx_sig : fsig :=
-  {| fs_name := [109; 50]; fs_ret := Some TI32;
-     fs_args := [(TI32, false); (TStr, false); (ex_item, false); (TStr, true); (TVec TI32, true); (ex_item, true); (TMap TStr TStr, true)] |}.
-Definition fx_zero_item : val := VStruct [VInt 0; VStr []; VList []; VInt 0].
-Definition fx_args : list val := [VInt 300; VStr [104; 105]; ex_it 5; VStr []; VList []; fx_zero_item; VMap []].
-Definition fx_q (ow : bool) := mkreq env0 fx_sig fx_args ex_opts ow 41 [79; 98; 106] 3000.
+Ltac typed_list := repeat (apply Forall2_cons; [cbn [fst fty]; apply (has_type_b_sound env0 8); vm_compute; reflexivity|]); apply Forall2_nil.
+Ltac fine_packet := repeat split; try reflexivity; repeat constructor.
 
-Example fx_sig_ok : sig_ok env0 2 4 fx_sig.
+Example ex_sig_fine : sig_fine env0 2 4 ex_sig.
 Proof.
-  unfold sig_ok, sig_fine, sig_args_ok, ret_ok, ty_fine, fuel_static. cbn [fx_sig fs_args fs_ret].
+  unfold sig_fine, sig_args_ok, ret_ok, ty_fine, fuel_static. cbn [ex_sig fs_args fs_ret].
   repeat split; try (vm_compute; reflexivity); try (vm_compute; lia).
   repeat constructor; vm_compute; reflexivity.
 Qed.
-Example fx_args_typed : args_typed env0 (fs_args fx_sig) fx_args.
-Proof. unfold args_typed. repeat (apply Forall2_cons; [cbn [fst]; apply (has_type_b_sound env0 8); vm_compute; reflexivity|]). apply Forall2_nil. Qed.
-Example fx_outs_fresh : outs_fresh env0 fx_sig fx_args.
+Example ex_args_typed : args_typed env0 (fs_args ex_sig) ex_args.
+Proof. unfold args_typed. typed_list. Qed.
+Example ex_outs_skippable : outs_skippable ex_sig ex_args.
+Proof. unfold outs_skippable. vm_compute outs_of. repeat constructor; vm_compute; try reflexivity; try discriminate. Qed.
+Example ex_outs_fresh : outs_fresh env0 ex_sig ex_args.
 Proof.
   unfold outs_fresh. vm_compute out_fields. vm_compute outs_of.
   repeat (apply Forall2_cons; [cbn [fty]; first [match goal with |- zlike _ ?t _ => exact (ZL_base env0 t eq_refl) end | apply (zero_zlike env0 2 ex_item 3); [vm_compute; reflexivity|lia]]|]).
   apply Forall2_nil.
 Qed.
-Example fx_results_typed : results_typed env0 fx_sig (results ex_ret ex_outs).
-Proof. unfold results_typed. vm_compute rsp_fields. repeat (apply Forall2_cons; [cbn [fty]; apply (has_type_b_sound env0 8); vm_compute; reflexivity|]). apply Forall2_nil. Qed.
-Example fx_req_sendable : req_sendable env0 SR MAXP (fx_q false).
+Example ex_results_typed : results_typed env0 ex_sig (results ex_ret ex_outs).
+Proof. unfold results_typed. vm_compute rsp_fields. typed_list. Qed.
+Example ex_req_sendable : req_sendable env0 SR MAXP (ex_q false).
 Proof.
   split; [|apply N.leb_le; vm_compute; reflexivity].
-  unfold req_fine, smap_fine, str_fine. cbn [fx_q mkreq q_ver q_ptype q_mtype q_id q_servant q_func q_buf q_timeout q_ctx q_status].
-  repeat split; try reflexivity; repeat constructor.
+  unfold req_fine, smap_fine, str_fine. cbn [ex_q mkreq q_ver q_ptype q_mtype q_id q_servant q_func q_buf q_timeout q_ctx q_status]. fine_packet.
 Qed.
-Example fx_rsp_sendable : rsp_sendable env0 SP MAXP (ok_reply env0 fx_sig (fx_q false) ex_ret ex_outs ex_rc ex_rs).
+Example ex_rsp_sendable : rsp_sendable env0 SP MAXP (ok_reply env0 ex_sig (ex_q false) ex_ret ex_outs ex_rc ex_rs).
 Proof.
   split; [|apply N.leb_le; vm_compute; reflexivity].
-  unfold rsp_fine, smap_fine, str_fine. cbn [ok_reply p_ver p_ptype p_id p_mtype p_ret p_buf p_status p_desc p_ctx fx_q mkreq q_ver q_ptype q_id].
-  repeat split; try reflexivity; repeat constructor.
+  unfold rsp_fine, smap_fine, str_fine. cbn [ok_reply p_ver p_ptype p_id p_mtype p_ret p_buf p_status p_desc p_ctx ex_q mkreq q_ver q_ptype q_id]. fine_packet.
 Qed.
 
-Example fx_transparent_ok :
-  call env0 SR SP MAXP ex_impl_ok (filters_of inv_res ex_pc) (filters_of disp_res ex_ps) [fx_sig] fx_sig fx_args ex_opts false 41 [79; 98; 106] 3000
+Example ex_transparent_ok_closed :
+  call env0 SR SP MAXP ex_impl_ok (filters_of inv_res ex_pc) (filters_of disp_res ex_ps) [ex_sig] ex_sig ex_args ex_opts false 41 [79; 98; 106] 3000
   = (COk ex_ret ex_outs [ex_rc; ex_rs],
-     core_events_at ex_pc ex_ps fx_sig [VInt 300; VStr [104; 105]; ex_it 5] ex_opts true).
+     core_events_at ex_pc ex_ps ex_sig [VInt 300; VStr [104; 105]; VInt (-1); ex_it 5; VBool true] ex_opts true).
 Proof.
   rewrite (transparent_ok_closed env0 2 fx_env0_wf ltac:(lia) SR SP eq_refl eq_refl MAXP ltac:(vm_compute; reflexivity) 4
-             ex_impl_ok ex_pc ex_ps [fx_sig] fx_sig fx_args ex_opts 41 [79; 98; 106] 3000 ex_ret ex_outs ex_rc ex_rs).
+             ex_impl_ok ex_pc ex_ps [ex_sig] ex_sig ex_args ex_opts 41 [79; 98; 106] 3000 ex_ret ex_outs ex_rc ex_rs).
   - vm_compute. reflexivity.
   - vm_compute. reflexivity.
-  - exact fx_sig_ok.
-  - exact fx_args_typed.
-  - exact fx_outs_fresh.
+  - exact ex_sig_fine.
+  - exact ex_args_typed.
+  - exact ex_outs_skippable.
+  - exact ex_outs_fresh.
   - reflexivity.
-  - exact fx_results_typed.
-  - exact fx_req_sendable.
-  - exact fx_rsp_sendable.
+  - exact ex_results_typed.
+  - exact ex_req_sendable.
+  - exact ex_rsp_sendable.
 Qed.
 
-(* ---------- the same call with an out variable that already holds a value: the Item passed for o3 has nums = [1; ...],
-   the implementation sets an Item with nums = [] - the caller reads the stale nums (known finding; the out variables
-   must be fresh in the closed theorem) ---------- *)
+(* ---------- an out variable that already holds a value: the Item passed for o3 has nums = [1; ...], the implementation
+   sets an Item with nums = [] - the caller reads the stale nums (known finding; the out variables must be fresh in
+   the closed theorem). Signature with the out parameters last:
+     int m2(int a, string b, Item d, out string o1, out vector<int> o2, out Item o3, out map<string,string> o4) ---------- *)
+Definition fx_sig : fsig :=
+  {| fs_name := [109; 50]; fs_ret := Some TI32;
+     fs_args := [(TI32, false); (TStr, false); (ex_item, false); (TStr, true); (TVec TI32, true); (ex_item, true); (TMap TStr TStr, true)] |}.
+Example fx_sig_fine : sig_fine env0 2 4 fx_sig.
+Proof.
+  unfold sig_fine, sig_args_ok, ret_ok, ty_fine, fuel_static. cbn [fx_sig fs_args fs_ret].
+  repeat split; try (vm_compute; reflexivity); try (vm_compute; lia).
+  repeat constructor; vm_compute; reflexivity.
+Qed.
 Definition fx_args_prefilled : list val := [VInt 300; VStr [104; 105]; ex_it 5; VStr []; VList []; ex_it 5; VMap []].
 Definition fx_set_item : val := VStruct [VInt 9; VStr [97; 98]; VList []; VInt 8].
 Definition fx_outs_empty : list val := [VStr [111; 49]; VList [VInt 1; VInt 70000]; fx_set_item; VMap [(VStr [120], VStr [121; 122])]].
 Definition fx_impl_empty : bytes -> list val -> smap -> smap -> impl_res := fun _ _ _ _ => IOk ex_ret fx_outs_empty ex_rc ex_rs.
 Definition fx_qp := mkreq env0 fx_sig fx_args_prefilled ex_opts false 41 [79; 98; 106] 3000.
 Example fx_prefilled_typed : args_typed env0 (fs_args fx_sig) fx_args_prefilled.
-Proof. unfold args_typed. repeat (apply Forall2_cons; [cbn [fst]; apply (has_type_b_sound env0 8); vm_compute; reflexivity|]). apply Forall2_nil. Qed.
+Proof. unfold args_typed. typed_list. Qed.
+Example fx_prefilled_skippable : outs_skippable fx_sig fx_args_prefilled.
+Proof. unfold outs_skippable. vm_compute outs_of. repeat constructor; vm_compute; try reflexivity; try discriminate. Qed.
 Example fx_empty_typed : results_typed env0 fx_sig (results ex_ret fx_outs_empty).
-Proof. unfold results_typed. vm_compute rsp_fields. repeat (apply Forall2_cons; [cbn [fty]; apply (has_type_b_sound env0 8); vm_compute; reflexivity|]). apply Forall2_nil. Qed.
+Proof. unfold results_typed. vm_compute rsp_fields. typed_list. Qed.
 Example fx_qp_sendable : req_sendable env0 SR MAXP fx_qp.
 Proof.
   split; [|apply N.leb_le; vm_compute; reflexivity].
-  unfold req_fine, smap_fine, str_fine. cbn [fx_qp mkreq q_ver q_ptype q_mtype q_id q_servant q_func q_buf q_timeout q_ctx q_status].
-  repeat split; try reflexivity; repeat constructor.
+  unfold req_fine, smap_fine, str_fine. cbn [fx_qp mkreq q_ver q_ptype q_mtype q_id q_servant q_func q_buf q_timeout q_ctx q_status]. fine_packet.
 Qed.
 Example fx_rp_sendable : rsp_sendable env0 SP MAXP (ok_reply env0 fx_sig fx_qp ex_ret fx_outs_empty ex_rc ex_rs).
 Proof.
   split; [|apply N.leb_le; vm_compute; reflexivity].
-  unfold rsp_fine, smap_fine, str_fine. cbn [ok_reply p_ver p_ptype p_id p_mtype p_ret p_buf p_status p_desc p_ctx fx_qp mkreq q_ver q_ptype q_id].
-  repeat split; try reflexivity; repeat constructor.
+  unfold rsp_fine, smap_fine, str_fine. cbn [ok_reply p_ver p_ptype p_id p_mtype p_ret p_buf p_status p_desc p_ctx fx_qp mkreq q_ver q_ptype q_id]. fine_packet.
 Qed.
 Example fx_prefilled_result :
   fst (call env0 SR SP MAXP fx_impl_empty (filters_of inv_res ex_pc) (filters_of disp_res ex_ps) [fx_sig] fx_sig fx_args_prefilled ex_opts false 41 [79; 98; 106] 3000)
@@ -212,6 +218,6 @@ Proof.
   specialize (H env0 2%nat 4%nat SR SP MAXP fx_impl_empty ex_pc ex_ps [fx_sig] fx_sig fx_args_prefilled ex_opts 41%Z [79; 98; 106] 3000%Z
                 ex_ret fx_outs_empty ex_rc ex_rs fx_env0_wf ltac:(lia) eq_refl eq_refl ltac:(vm_compute; reflexivity)).
   cbn zeta in H.
-  specialize (H ltac:(vm_compute; reflexivity) (proj2 fx_sig_ok) fx_prefilled_typed eq_refl I fx_empty_typed fx_qp_sendable fx_rp_sendable).
+  specialize (H ltac:(vm_compute; reflexivity) fx_sig_fine fx_prefilled_typed fx_prefilled_skippable eq_refl I fx_empty_typed fx_qp_sendable fx_rp_sendable).
   rewrite fx_prefilled_result in H. discriminate H.
 Qed.
